@@ -2,7 +2,13 @@ from driver import KaniUnit, VerusUnit, Harness as H
 ID = "C01"
 LEVEL = "proof"
 al = VerusUnit("al_astar", "al_astar", rlimit=60)
-UNITS = [al]
+CORE = "routee-compass-core"
+wit = KaniUnit("c01_wit", CORE, modules=[dict(file=CORE + "/src/algorithm/search/search_instance.rs", src="world.rs"),
+                                          dict(file=CORE + "/src/algorithm/search/search_algorithm.rs", src="c01_wit.rs")], harnesses=[])
+wit.native_witnesses = ["c01_wit_box_world_all_pairs", "c01_wit_edge_oriented_destination_head_already_in_tree", "c01_wit_edge_oriented_adjacent", "c01_wit_single_via_routes_are_walks"]
+bt = VerusUnit("c01_backtrack", "c01_backtrack", rlimit=60)
+eo = VerusUnit("c01_edge_oriented", "c01_edge_oriented", rlimit=60, paired_kani=(wit, []))
+UNITS = [al, bt, eo, wit]
 EXPLANATION = ("run_a_star / advance_search / get_last_traversed_edge_id / Direction::{tree_key_vertex_id, terminal_vertex_id} extracted verbatim; "
                "loop invariants TW (entry edge joins parent to entry in the search direction), DOM, POT (labels strictly decrease along parents) "
                "verified for every graph, direction and model configuration satisfying the assumed callee contracts; no-revisit lemma")
